@@ -526,6 +526,9 @@ func init() {
 					for _, f := range flatListFields {
 						if c.R.Intn(3) == 0 {
 							n := 1 + c.R.Intn(6)
+							if c.R.Intn(6) == 0 {
+								n = 8 + c.R.Intn(14)
+							}
 							var toks []string
 							for i := 0; i < n; i++ {
 								t := flatListTokensWide[c.R.Intn(len(flatListTokensWide))]
